@@ -20,7 +20,7 @@ from vlib import coq
 
 COQ_DIRS = ["FockAxes"]
 COQ_TARGETS = ["FockAxes/Model.vo", "FockAxes/Lists.vo", "FockAxes/Proofs.vo", "FockAxes/TwoMode.vo",
-               "FockAxes/Channel.vo", "FockAxes/Prepare.vo", "FockAxes/Exec.vo"]
+               "FockAxes/Channel.vo", "FockAxes/Prepare.vo", "FockAxes/Exec.vo", "FockAxes/ExecFacts.vo"]
 PROPERTIES_FILE = "Properties/FockAxes.v"
 RULE_FOCK_AXES = ("every ordered choice of 1-2 (thorough: 1-3) target modes of a 1-4 mode register at cutoff 2-3, pure and mixed, "
                   "general and diagonal random integer matrices, random Gaussian-integer states; apply_gate_BLAS, apply_twomode_gate "
@@ -501,7 +501,7 @@ def small(case):
 
 
 def correspondence_fock_axes(ctx):
-    JIT_MAX_NDIM[0] = 2 if ctx.quick else 6
+    JIT_MAX_NDIM[0] = 2 if ctx.quick else 4
     cases = gen_cases(ctx)
     outs = []
     for c in cases:
